@@ -180,20 +180,24 @@ pub fn items() -> Vec<Item> {
             eq_big(&dc.zeta, &decaf377::ZETA.big()).and(truth("zeta non-square", dc.f().legendre(&decaf377::ZETA.big()) == -1))
         }),
     });
+    // class-level: which coset member / projective scaling a constant is stored as is not part of
+    // the property (generator = decode(8) as an ELEMENT; identity = the neutral element)
     items.push(Item {
-        name: "Element::GENERATOR == decodeSpec(8), exact coordinates, Z = 1, T = xy".into(),
+        name: "Element::GENERATOR is decodeSpec(8) as an element (valid extended coordinates; encodes to 8)".into(),
         f: Box::new(|| {
             let dc = Decaf::new();
-            let g = dc.generator();
             let c = coords_big(&el_coords(&Element::GENERATOR));
-            eq_big(&g.x, &c[0]).and(eq_big(&g.y, &c[1])).and(eq_big(&BigUint::one(), &c[2])).and(eq_big(&dc.f().mul(&g.x, &g.y), &c[3]))
+            let mut enc = [0u8; 32];
+            enc[0] = 8;
+            truth("class of decodeSpec(8)", same_class_coords(&dc, &c, &dc.generator()) && Element::GENERATOR.vartime_compress().0 == enc)
         }),
     });
     items.push(Item {
-        name: "Element::IDENTITY == (0 : 1 : 1 : 0)".into(),
+        name: "Element::IDENTITY is the neutral element (X = 0, valid extended coordinates; encodes to 0)".into(),
         f: Box::new(|| {
+            let dc = Decaf::new();
             let c = coords_big(&el_coords(&Element::IDENTITY));
-            truth("coords", c[0].is_zero() && c[1].is_one() && c[2].is_one() && c[3].is_zero())
+            truth("identity class", c[0].is_zero() && same_class_coords(&dc, &c, &dc.c.identity()) && Element::IDENTITY.vartime_compress().0 == [0u8; 32] && Element::IDENTITY.is_identity())
         }),
     });
     items.push(Item {
@@ -239,17 +243,19 @@ fn ark_curve_items(items: &mut Vec<Item>) {
         let x = Fq::of(&u(123456789));
         eq_big(&FieldFacts::fq().f.neg(&u(123456789)), &<Cfg as TECurveConfig>::mul_by_a(x).big())
     });
-    it!("TECurveConfig::GENERATOR == decodeSpec(8)", {
-        let g = Decaf::new().generator();
+    it!("TECurveConfig::GENERATOR is decodeSpec(8) as an element", {
+        let dc = Decaf::new();
         let gg = <Cfg as TECurveConfig>::GENERATOR;
-        eq_big(&g.x, &gg.x.big()).and(eq_big(&g.y, &gg.y.big()))
+        let c = [gg.x.big(), gg.y.big(), BigUint::one(), dc.f().mul(&gg.x.big(), &gg.y.big())];
+        truth("class of decodeSpec(8)", same_class_coords(&dc, &c, &dc.generator()))
     });
-    it!("generator published identically: Element::GENERATOR, Group::generator, AffineRepr::generator, TECurveConfig::GENERATOR", {
-        let a = coords_big(&el_coords(&Element::GENERATOR));
+    it!("generator published consistently: Element::GENERATOR, Group::generator, AffineRepr::generator, TECurveConfig::GENERATOR denote the same element", {
+        let dc = Decaf::new();
+        let g = dc.generator();
         let b = coords_big(&el_coords(&<Element as Group>::generator()));
-        let c = coords_big(&af_coords(&<Affine as AffineRepr>::generator()));
-        let d = <Cfg as TECurveConfig>::GENERATOR;
-        truth("all four equal", a[0] == b[0] && a[1] == b[1] && a[2] == b[2] && a[0] == c[0] && a[1] == c[1] && a[0] == d.x.big() && a[1] == d.y.big())
+        let ca = coords_big(&af_coords(&<Affine as AffineRepr>::generator()));
+        let c = [ca[0].clone(), ca[1].clone(), BigUint::one(), dc.f().mul(&ca[0], &ca[1])];
+        truth("all denote decodeSpec(8)", same_class_coords(&dc, &b, &g) && same_class_coords(&dc, &c, &g) && <Element as Group>::generator() == Element::GENERATOR)
     });
     it!("MontCurveConfig::COEFF_A == 2(a+d)/(a-d)", {
         let f = FieldFacts::fq().f;
@@ -346,6 +352,18 @@ fn ark_curve_items(items: &mut Vec<Item>) {
         truth("same as reference && non-residue && hooks consistent", same && qnr && hooks)
     });
     let _ = (Fr::ZERO, Fp::ZERO);
+}
+
+/// (X : Y : Z : T) is a valid extended representation of the element of the reference point g
+pub fn same_class_coords(dc: &Decaf, c: &[BigUint; 4], g: &refmodel::curve::Pt) -> bool {
+    let f = dc.f();
+    match f.inv(&c[2]) {
+        Some(zi) => {
+            let (x, y) = (f.mul(&c[0], &zi), f.mul(&c[1], &zi));
+            ((x == g.x && y == g.y) || (x == f.neg(&g.x) && y == f.neg(&g.y))) && f.mul(&c[3], &c[2]) == f.mul(&c[0], &c[1])
+        }
+        None => false,
+    }
 }
 
 #[cfg(feature = "ark")]
